@@ -220,41 +220,14 @@ func evaluateExpression(node []*Node, expression string, query parser.Query) (in
 	return output, nil
 }
 
-func generateCartesianProduct(graph *CodeGraph, selectList []parser.SelectList, conditions []string) [][]*Node {
+func generateCartesianProduct(graph *CodeGraph, selectList []parser.SelectList, _ []string) [][]*Node {
 	typeIndex := make(map[string][]*Node)
 
-	// value and reference based reducing search space
-	for _, condition := range conditions {
-		// this code helps to reduce search space
-		// if there is single entity in select list, the condition is easy to reduce the search space
-		// if there are multiple entities in select list, the condition is hard to reduce the search space,
-		// but I have tried my best using O(n^2) time complexity to reduce the search space
-		if len(selectList) > 1 {
-			lhsNodes := graph.FindNodesByType(selectList[0].Entity)
-			rhsNodes := graph.FindNodesByType(selectList[1].Entity)
-			for _, lhsNode := range lhsNodes {
-				for _, rhsNode := range rhsNodes {
-					if FilterEntities([]*Node{lhsNode, rhsNode}, parser.Query{Expression: condition, SelectList: selectList}) {
-						typeIndex[lhsNode.Type] = appendUnique(typeIndex[lhsNode.Type], lhsNode)
-						typeIndex[rhsNode.Type] = appendUnique(typeIndex[rhsNode.Type], rhsNode)
-					}
-				}
-			}
-		} else {
-			filteredNodes := graph.FindNodesByType(selectList[0].Entity)
-			for _, node := range filteredNodes {
-				query := parser.Query{Expression: condition, SelectList: selectList}
-				if FilterEntities([]*Node{node}, query) {
-					typeIndex[node.Type] = appendUnique(typeIndex[node.Type], node)
-				}
-			}
-		}
-	}
-
-	if len(conditions) == 0 {
-		for _, node := range graph.Nodes {
-			typeIndex[node.Type] = append(typeIndex[node.Type], node)
-		}
+	// Candidates are all entities of the requested kinds; the full condition is evaluated on
+	// every combination by FilterEntities. (Pre-filtering by the individual comparisons of the
+	// condition dropped matches of negated or disjunctive conditions.)
+	for _, node := range graph.Nodes {
+		typeIndex[node.Type] = append(typeIndex[node.Type], node)
 	}
 
 	sets := make([][]interface{}, 0, len(selectList))
